@@ -1,0 +1,100 @@
+#![allow(missing_docs)]
+#![allow(clippy::all, clippy::pedantic, clippy::nursery)]
+use std::fmt::Write as _;
+use std::sync::atomic::{AtomicU64, Ordering};
+
+use crate::{
+    error::Error,
+    lexer::tokenize,
+    parser::{Cst, Node, NodeRef, Parser},
+    value::Value,
+};
+
+pub fn merger(a: Value, b: Value) -> Result<Value, Error> {
+    crate::shape::merger::merger(a, b)
+}
+
+pub fn merge(values: &[Value]) -> Result<Value, Error> {
+    crate::shape::merger::merge(values)
+}
+
+pub fn as_optional(v: Value) -> Value {
+    v.as_optional()
+}
+
+pub fn as_non_optional(v: Value) -> Value {
+    v.as_non_optional()
+}
+
+/// Token kinds with spans, then diagnostic (message, span) pairs, as produced by `tokenize`.
+pub fn lex(source: &str) -> (Vec<(String, usize, usize)>, Vec<(String, usize, usize)>) {
+    let mut diags = Vec::new();
+    let (tokens, spans) = tokenize(source, &mut diags);
+    let toks = tokens
+        .iter()
+        .zip(spans.iter())
+        .map(|(t, s)| (format!("{t:?}"), s.start, s.end))
+        .collect();
+    (toks, diag_list(&diags))
+}
+
+fn diag_list(diags: &[crate::parser::Diagnostic]) -> Vec<(String, usize, usize)> {
+    diags
+        .iter()
+        .map(|d| {
+            let (s, e) = d
+                .labels
+                .first()
+                .map_or((0, 0), |l| (l.range.start, l.range.end));
+            (d.message.clone(), s, e)
+        })
+        .collect()
+}
+
+fn dump(cst: &Cst<'_>, node: NodeRef, out: &mut String) {
+    match cst.get(node) {
+        Node::Rule(rule, _) => {
+            let span = cst.span(node);
+            let _ = write!(out, "({rule:?}@{}..{}", span.start, span.end);
+            for child in cst.children(node) {
+                out.push(' ');
+                dump(cst, child, out);
+            }
+            out.push(')');
+        }
+        Node::Token(token, _) => {
+            let span = cst.span(node);
+            let _ = write!(out, "{token:?}@{}..{}", span.start, span.end);
+        }
+    }
+}
+
+/// The CST of `source` as an s-expression with spans, and the diagnostics of lexer and parser.
+pub fn cst(source: &str) -> (String, Vec<(String, usize, usize)>) {
+    let mut diags = Vec::new();
+    let cst = Parser::parse(source, &mut diags);
+    let mut out = String::new();
+    dump(&cst, NodeRef::ROOT, &mut out);
+    (out, diag_list(&diags))
+}
+
+pub static TICKS_FROM_VALUE: AtomicU64 = AtomicU64::new(0);
+pub static TICKS_PARSE_RULE: AtomicU64 = AtomicU64::new(0);
+pub static TICKS_MERGER: AtomicU64 = AtomicU64::new(0);
+pub static TICKS_IS_SUBSET: AtomicU64 = AtomicU64::new(0);
+
+pub fn reset_ticks() {
+    TICKS_FROM_VALUE.store(0, Ordering::Relaxed);
+    TICKS_PARSE_RULE.store(0, Ordering::Relaxed);
+    TICKS_MERGER.store(0, Ordering::Relaxed);
+    TICKS_IS_SUBSET.store(0, Ordering::Relaxed);
+}
+
+pub fn ticks() -> [u64; 4] {
+    [
+        TICKS_FROM_VALUE.load(Ordering::Relaxed),
+        TICKS_PARSE_RULE.load(Ordering::Relaxed),
+        TICKS_MERGER.load(Ordering::Relaxed),
+        TICKS_IS_SUBSET.load(Ordering::Relaxed),
+    ]
+}
